@@ -239,7 +239,35 @@ def _sched(rng, kind, nd):
     raise KeyError(kind)
 
 
-def _rand_frame(rs, nd, cols, kind, rng):
+def _nan_gaps(f, nd, p):
+    """blank out runs of cells (a prefix, as for a name that gets its first target late, or an inner gap); drawn from a private stream so that
+    the case's main random streams do not shift"""
+    import zlib
+    r = random.Random(zlib.crc32(repr(f["values"][0]).encode()) ^ nd)
+    if r.random() >= p:
+        return f
+    nrows = len(f["values"])
+    if nrows < 4:
+        return f
+    for j in range(len(f["cols"])):
+        if r.random() < 0.45:
+            a = 0 if r.random() < 0.6 else r.randint(1, nrows - 2)
+            b = r.randint(a + 1, nrows - 1)
+            for i in range(a, b):
+                f["values"][i][j] = float("nan")
+    f["nan_gaps"] = True
+    return f
+
+
+def _rand_frame(rs, nd, cols, kind, rng, nan_gaps=0.0):
+    if nan_gaps and kind in ("stat", "weights"):
+        f = _rand_frame(rs, nd, cols, kind, rng)
+        if kind == "weights" and len(f["rows"]) < nd and (len(f["rows"]) + nd) % 2 == 0:
+            # every other sparse schedule is spelled out on the full calendar (frames on the price index get bt's synthetic first row)
+            step = f["rows"][1] - f["rows"][0] if len(f["rows"]) > 1 else nd
+            f["values"] = [list(f["values"][i // step]) for i in range(nd)]
+            f["rows"] = list(range(nd))
+        return _nan_gaps(f, nd, nan_gaps)
     if kind == "bool":
         return {"cols": list(cols), "values": (rs.rand(nd, len(cols)) > 0.4).tolist(), "bool": True}
     if kind == "stat":
@@ -305,7 +333,7 @@ def gen_stack(rng, rs, spec, names, priced, prefix, opts, is_child=False):
         st += [{"a": "SelectAll"}, {"a": "SelectRandomly", "args": [rng.randint(1, len(names))]}]
     elif sel == "setstat_n":
         fn = prefix + "stat"
-        spec["extras"][fn] = _rand_frame(rs, nd, names, "stat", rng)
+        spec["extras"][fn] = _rand_frame(rs, nd, names, "stat", rng, opts.get("nan_gaps", 0.0))
         if rng.random() < 0.35:
             # scores published on some dates only (weekly / irregular): now - lag may fall into a gap
             rows = sorted(set(range(0, nd, rng.choice([2, 3, 5]))) | ({rng.randrange(nd)} if rng.random() < 0.5 else set()))
@@ -347,7 +375,7 @@ def gen_stack(rng, rs, spec, names, priced, prefix, opts, is_child=False):
         st.append({"a": "WeighSpecified", "kw": dict(zip(ks, [float(x) for x in wv]))})
     elif w == "target":
         fn = prefix + "tw"
-        spec["extras"][fn] = _rand_frame(rs, nd, priced, "weights", rng)
+        spec["extras"][fn] = _rand_frame(rs, nd, priced, "weights", rng, opts.get("nan_gaps", 0.0))
         if opts.get("leverage"):
             f = spec["extras"][fn]
             f["values"] = (np.array(f["values"]) * rng.uniform(1.0, 3.0)).tolist()
